@@ -69,6 +69,12 @@ func (m RelativeObjectMap) FindGroupKindName(gk schema.GroupKind, name string) *
 	return nil
 }
 
+// RelativeName returns the name of the object relative to the parent, which is
+// the key under which a RelativeObjectMap holds the object.
+func RelativeName(parent v1.Object, obj *unstructured.Unstructured) string {
+	return relativeName(parent, obj)
+}
+
 // relativeName returns the name of the object relative to the parent.
 // If the parent is cluster scoped and the object namespaced scoped the
 // name is of the format <namespace>/<name>. Otherwise, the name of the object
